@@ -85,6 +85,14 @@ func VerifC12_HTLC() {
 	// exported as is, or after the module's prepare-for-zero-height step (expiry heights rebased for a chain
 	// that restarts at height 1)
 	prep := verifChoice("prepForZeroHeight", 2) == 1
+	// how many blocks each open contract still has to live, before anything is rebased
+	remaining := map[string]uint64{}
+	k.IterateHTLCs(ctx, func(id tmbytes.HexBytes, h0 types.HTLC) bool {
+		if h0.State == types.Open {
+			remaining[id.String()] = h0.ExpirationHeight - uint64(h)
+		}
+		return false
+	})
 	if prep {
 		panicked, what := verifCatch(func() { PrepForZeroHeightGenesis(ctx, k) })
 		if panicked {
@@ -125,6 +133,7 @@ func VerifC12_HTLC() {
 			verifAssert(ok && verifDeepEqual(h1, h2), "an open contract answers identically after re-import")
 			verifAssert(e2.store().Has(types.GetHTLCExpiredQueueKey(h1.ExpirationHeight, id)), "an open contract keeps its expiry queue entry after re-import")
 			verifAssert(h1.ExpirationHeight > uint64(hImport), "an open contract expires in a later block of the re-imported chain")
+			verifAssert(h2.ExpirationHeight-uint64(hImport) == remaining[id.String()], "an open contract has as many blocks left on the re-imported chain as it had before the export")
 		}
 		return false
 	})
